@@ -11,7 +11,7 @@
    (b) the current recovery = that store overlaid with the live records in partition-round-robin order (once per image
        of the chain) - which is also what an asynchronous replay does to writes acknowledged before it ran -
    and reports which of them the observation equals: code 1 = repaired only, 2 = current only, 3 = both, 0 = neither;
-   +4 when the live-log tie fails. *)
+   +4 when the live-log tie fails, +8 when the flush/drop machine (xstate) recovers something else than the shard shows. *)
 From Coq Require Import NArith ZArith List Bool Arith.
 From OG Require Import C01.Model.
 Import ListNotations.
@@ -21,7 +21,7 @@ Inductive cop := CW (b : batch) | CD (m : N) | CN.       (* write, drop measurem
 Record ctie := mkct { ct_eps : list (list nat); ct_nj : nat; ct_gone : list nat }.
 Record cimage := mkci { ci_acked : nat; ci_inflight : option nat; ci_post : list cop; ci_chain : list (list (list nat));
                         ci_tie : option ctie; ci_obs : list (key * Z) }.
-Record ccase := mkcc { cc_nwal : nat; cc_ops : list cop; cc_images : list cimage }.
+Record ccase := mkcc { cc_nwal : nat; cc_ops : list cop; cc_xops : list (list xop); cc_images : list cimage }.
 
 Definition lookup (obs : list (key * Z)) (k : key) : option Z :=
   match find (fun e => key_eqb (fst e) k) obs with Some e => Some (snd e) | None => None end.
@@ -66,7 +66,11 @@ Definition tie_ok (n : nat) (im : cimage) : bool :=
   | _, _ => true
   end.
 
-Definition image_code (n : nat) (ops : list cop) (im : cimage) : nat :=
+(* the flush/drop machine of Model.v (xstate, the order that checks the replay flag first) run on the steps of the
+   acknowledged ops: what it recovers must be what the real shard shows whenever the oracle accepts the acknowledged state *)
+Definition xstore (xops : list (list xop)) (acked : nat) : store := x_recovered (xrun false true (concat (firstn acked xops))).
+
+Definition image_code (n : nat) (ops : list cop) (xops : list (list xop)) (im : cimage) : nat :=
   let univ := universe ops im in
   let acked := firstn (ci_acked im) ops in
   let base := acked ++ ci_post im in
@@ -80,7 +84,11 @@ Definition image_code (n : nat) (ops : list cop) (im : cimage) : nat :=
              | None => false
              end in
   let cur := matches (current_store ops base im) (ci_obs im) univ in
-  (if rep then 1 else 0) + (if cur then 2 else 0) + (if tie_ok n im then 0 else 4).
+  let xok := match ci_inflight im, ci_post im with
+             | None, [] => negb (matches (lww (hist base)) (ci_obs im) univ) || matches (xstore xops (ci_acked im)) (ci_obs im) univ
+             | _, _ => true
+             end in
+  (if rep then 1 else 0) + (if cur then 2 else 0) + (if tie_ok n im then 0 else 4) + (if xok then 0 else 8).
 
-Definition case_codes (c : ccase) : list nat := map (image_code (cc_nwal c) (cc_ops c)) (cc_images c).
+Definition case_codes (c : ccase) : list nat := map (image_code (cc_nwal c) (cc_ops c) (cc_xops c)) (cc_images c).
 Definition all_codes (cs : list ccase) : list (list nat) := map case_codes cs.
